@@ -1025,6 +1025,21 @@ theorem known_collection_is_assertion [EqOracle] (v w : Value) (cs : List Refine
   obtain ⟨l, h1, h2, h3⟩ := refine_known_collection hl hfit h
   exact ⟨l, h1, h2, by rw [← γV_unmark]; exact γV_of_knownLength hl l h1 h2, h3⟩
 
+/-- EXACTLY, for whole chains, every oracle: a chain of `NotNull()` and length constraints on a known list, map or set
+is accepted IFF some possible length of the receiver satisfies every call of it — and then the receiver itself comes
+back.  (Any other call on such a receiver panics: `Null()` contradicts a known non-null value, number and prefix
+calls do not apply to a collection.) -/
+theorem known_collection_chain_iff [EqOracle] (v : Value) (cs : List RefineCall) (least most : Nat)
+    (hl : knownLength v.unmark = .ok (least, most)) (hfit : (most : Int) ≤ maxInt)
+    (hm : v.unmark.v.isMarked = false) (hc : cs.all isLenOrNotNull = true) :
+    ((∃ w, refine v cs = .ok w) ↔ ∃ l : Nat, least ≤ l ∧ l ≤ most ∧ cs.all (fun c => den c (.coll l)) = true) ∧
+    ∀ w, refine v cs = .ok w → w = v.unmark.withMarks v.marks := by
+  refine ⟨⟨fun ⟨w, h⟩ => refine_known_collection hl hfit h, fun ⟨l, h1, h2, h3⟩ =>
+    ⟨_, refine_known_collection_accepts hl hfit hm hc h1 h2 h3⟩⟩, fun w h => ?_⟩
+  obtain ⟨l, h1, h2, h3⟩ := refine_known_collection hl hfit h
+  rw [refine_known_collection_accepts hl hfit hm hc h1 h2 h3] at h
+  exact (Res.ok.inj h).symm
+
 -- jointly, not call by call: on {unknown, "a"} "length ≥ 2" and "length ≤ 1" are each accepted, together they panic
 example : (@refine textOracle sampleSet [.lenLower 2]).isOk = true ∧ (@refine textOracle sampleSet [.lenUpper 1]).isOk = true ∧
     (@refine textOracle sampleSet [.lenLower 2, .lenUpper 1]).isPanic = true ∧
@@ -1354,6 +1369,31 @@ theorem known_collection_is_assertion_generated [EqOracle] (v w : Value) (cs : L
     (h : Generated.RefineFns.refine v cs = .ok w) :
     ∃ l : Nat, least ≤ l ∧ l ≤ most ∧ γV v (.coll l) = true ∧ (cs.map ext).all (fun c => den c (.coll l)) = true :=
   known_collection_is_assertion v w (cs.map ext) least most hl hfit (ok_of_generated (refine_eq v cs hm) h)
+
+/-- `ext` leaves a chain of `NotNull()` and length constraints alone -/
+theorem map_ext_lenOrNotNull (cs : List RefineCall) (hc : cs.all isLenOrNotNull = true) : cs.map ext = cs := by
+  induction cs with
+  | nil => rfl
+  | cons c cs ih =>
+    simp only [List.all_cons, Bool.and_eq_true] at hc
+    simp only [List.map, ih hc.2]
+    cases c <;> simp [isLenOrNotNull, isLenCall] at hc <;> rfl
+
+/-- EXACTLY, for whole chains of the translated source on a known collection: accepted iff some possible length
+satisfies every call -/
+theorem known_collection_chain_iff_generated [EqOracle] (v : Value) (cs : List RefineCall) (least most : Nat)
+    (hmod : Modelled v) (hl : knownLength v.unmark = .ok (least, most)) (hfit : (most : Int) ≤ maxInt)
+    (hm : v.unmark.v.isMarked = false) (hc : cs.all isLenOrNotNull = true) :
+    (∃ w, Generated.RefineFns.refine v cs = .ok w) ↔
+      ∃ l : Nat, least ≤ l ∧ l ≤ most ∧ cs.all (fun c => den c (.coll l)) = true := by
+  have he := refine_eq v cs hmod
+  rw [map_ext_lenOrNotNull cs hc] at he
+  rw [← (known_collection_chain_iff v cs least most hl hfit hm hc).1]
+  constructor
+  · intro ⟨w, h⟩; exact ⟨w, ok_of_generated he h⟩
+  · intro ⟨w, h⟩
+    rw [h, er_ok] at he
+    exact ⟨w, er_eq_ok.mp he⟩
 
 /-- a lower bound of +∞ is recorded by the translated `NumberRangeLowerBound` and excludes every finite number -/
 theorem far_lower_infinity_recorded_generated [EqOracle] (b b' : Builder) (a : NumArg) (incl : Bool)
